@@ -9,6 +9,7 @@ import (
 	"log/slog"
 	"net/http"
 	"net/url"
+	texttemplate "text/template"
 
 	"github.com/google/uuid"
 	"golang.org/x/crypto/acme/autocert"
@@ -36,9 +37,10 @@ var vCustomParseFails = map[string]bool{}
 var vBuiltinSet = &vPageSet{name: "builtin", has: map[string]bool{"404.html": true, "413.html": true, "502.html": true, "503.html": true, "504.html": true}}
 
 type vRendered struct {
-	set  string
-	page string
-	args any
+	set      string
+	page     string
+	args     any
+	escaping bool // rendered by html/template (contextual escaping) rather than text/template
 }
 
 var vRenders []vRendered
@@ -80,10 +82,56 @@ func stubTemplateExecute(t *template.Template, w io.Writer, data any) error {
 	if p.execFails {
 		return errVDisk
 	}
-	vRenders = append(vRenders, vRendered{set: p.name, page: p.page, args: data})
+	vRenders = append(vRenders, vRendered{set: p.name, page: p.page, args: data, escaping: true})
 	w.Write([]byte("PAGE[" + p.name + "/" + p.page + "]"))
 	return nil
 }
+
+// the same page sets when the code under test renders them with text/template (same API, no escaping): recorded as such
+
+var vTextTemplates = map[*texttemplate.Template]*vPageSet{}
+
+//verif:stub text/template.ParseFS
+func stubTextParseFS(fsys fs.FS, patterns ...string) (*texttemplate.Template, error) {
+	set := vBuiltinSet
+	if d, ok := fsys.(vDirFS); ok {
+		if vCustomParseFails[string(d)] {
+			return nil, errVDisk
+		}
+		set = vCustomSets[string(d)]
+		if set == nil {
+			return nil, errVDisk
+		}
+	}
+	t := &texttemplate.Template{}
+	vTextTemplates[t] = set
+	return t, nil
+}
+
+//verif:stub (*text/template.Template).Lookup
+func stubTextTemplateLookup(t *texttemplate.Template, name string) *texttemplate.Template {
+	set := vTextTemplates[t]
+	if set == nil || !set.has[name] {
+		return nil
+	}
+	p := &texttemplate.Template{}
+	vTextTemplates[p] = &vPageSet{name: set.name, parent: set, page: name, execFails: set.execFails}
+	return p
+}
+
+//verif:stub (*text/template.Template).Execute
+func stubTextTemplateExecute(t *texttemplate.Template, w io.Writer, data any) error {
+	p := vTextTemplates[t]
+	if p.execFails {
+		return errVDisk
+	}
+	vRenders = append(vRenders, vRendered{set: p.name, page: p.page, args: data, escaping: false})
+	w.Write([]byte("PAGE[" + p.name + "/" + p.page + "]"))
+	return nil
+}
+
+//verif:stub (*text/template.Template).Name
+func stubTextTemplateName(t *texttemplate.Template) string { return "page" }
 
 //verif:stub (*html/template.Template).Name
 func stubTemplateName(t *template.Template) string { return "page" }
